@@ -9,6 +9,7 @@ import (
 
 	"github.com/tencent/goom/internal/bytecode"
 	"github.com/tencent/goom/internal/logger"
+	"github.com/tencent/goom/internal/simhook"
 )
 
 // placeHolderIns 占位实例
@@ -63,6 +64,7 @@ func acquireFromHolder(len int) (uintptr, *[]byte, error) {
 		logger.Error("placeholder space usage overflow")
 		return 0, nil, errSpaceOverflow
 	}
+	simhook.Yield(simhook.SiteStubHolderLoaded, 0)
 
 	// add up to off
 	newOffset := atomic.AddUintptr(&placeHolderIns.off, uintptr(len))
